@@ -35,6 +35,7 @@ def run_c15(rep, tier):
         open(d + "/wire.go", "w").write(src)
         src2 = open(V + "/harness/gosrc/corpus/wire2.go.txt").read()
         open(d + "/wire2.go", "w").write(src2)
+        open(d + "/greeting.txt", "w").write("hello from a file\n")
         open(ws.root + "/cmd/run/main.go", "w").write(MAIN)
         rc0, out0, err0 = run(["go", "run", "-tags", "wireinject", "./cmd/run"], cwd=ws.root, env=dict(GOENV), timeout=300)
         if rc0 != 0:
@@ -63,6 +64,12 @@ def run_c15(rep, tier):
         rcv, outv, errv = run(["go", "vet", "./corp"], cwd=ws.root, env=dict(GOENV), timeout=300)
         if rcv != 0:
             fails.append({"stream": "c15", "why": ["go vet rejects the generated package: " + (outv + errv)[-500:]]})
+        # compiler directives in the doc comments of copied declarations (//go:embed, //go:noinline, ...) are part of the declaration
+        rx = re.compile(r"(?m)^//go:(?!build\b|generate\b)\S+.*$")
+        wantd, gotd = sorted(rx.findall(src) + rx.findall(src2)), sorted(rx.findall(open(gen).read()))
+        rep.evaluations += 1
+        if wantd != gotd:
+            fails.append({"stream": "c15", "why": ["compiler directives of the copied declarations: source %s, generated file %s" % (wantd, gotd)]})
         # doc comments and struct tags survive
         text = open(gen).read()
         for needle in ("// Pair is generic in two parameters.", '`json:"key" wire:"-"`', "// F1 exercises control flow, labels and shadowing.",
@@ -166,6 +173,7 @@ def run_matrix(rep, tier):
         open(d + "/a.go", "w").write(A_GO)
         src, calls = matrix_source()
         open(d + "/wire.go", "w").write(src)
+        open(d + "/greeting.txt", "w").write("hello from a file\n")
         open(ws.root + "/cmd/run/main.go", "w").write(MAIN)
         rc0, out0, err0 = run(["go", "run", "-tags", "wireinject", "./cmd/run"], cwd=ws.root, env=dict(GOENV), timeout=300)
         if rc0 != 0:
